@@ -207,3 +207,32 @@ package tls
 //@   ensures evicts_on_failure: old((*err) != nil) && called(clientSessionCacheKey, 0) && callres(clientSessionCacheKey, 0) != "" ==> called(Put, 0) && callarg(Put, 0, 1) == callres(clientSessionCacheKey, 0) && callarg(Put, 0, 2) == nil
 //@   ensures asks_key: old((*err) != nil) ==> called(clientSessionCacheKey, 0)
 //@   ensures quiet_on_success: old((*err) == nil) ==> !called(Put, 0)
+
+// C34 (server side, ECH): the closure of decodeInnerClientHello that expands the ech_outer_extensions references of
+// a decrypted inner ClientHello. For arbitrary decrypted bytes and any outer hello it never indexes outside the list of
+// raw outer extensions (a reference to an extension that is missing, or out of order, is an error, not a panic).
+// Safety only: the cryptobyte Builder calls are opaque.
+//@ func decodeInnerClientHello$1$4
+//@   property C34
+//@   requires cells: extensions != nil && rawOuterExts != nil
+//@   assume-pure AddUint16 SetError
+//@   note assume-pure: the Builder methods AddUint16 / SetError write builder-private state only
+//@   loop 0 invariant true
+//@   loop 1 invariant 0 <= i && i <= len(*rawOuterExts)
+//@   loop 2 invariant 0 <= i && i <= len(*rawOuterExts)
+
+//@ func decodeInnerClientHello$1$4$1
+//@   property C34
+//@   requires cells: rawOuterExts != nil && i != nil
+//@   requires lo: 0 <= (*i)
+//@   requires hi: (*i) < len(*rawOuterExts)
+//@   assume-pure AddBytes
+//@   note assume-pure: Builder.AddBytes appends to builder-private state only
+//@   modifies nothing
+
+//@ func decodeInnerClientHello$1$4$2
+//@   property C34
+//@   requires cells: extData != nil
+//@   assume-pure AddBytes
+//@   note assume-pure: Builder.AddBytes appends to builder-private state only
+//@   modifies nothing
